@@ -77,5 +77,15 @@ def generated(rng):
             m, u, v, d = s.curves[-1]
             s.curves[-1] = (m, br(u), v, d)
         s.well.append(("BAR", br("degC"), "3", "bracketed unit in ~Well"))
+    if rng.random() < 0.3:
+        # STRT/STOP/STEP without a unit of their own (the writer copies the index curve's unit onto them), a blank STEP
+        # value, a single row with a stale STOP: "an empty value with a unit becomes 0" must not fire on a later cycle
+        drop = rng.choice([("STEP",), ("STRT", "STOP", "STEP"), ("STOP", "STEP")])
+        blank_step = rng.random() < 0.5
+        s.well = [((m, "" if m in drop else u, "" if (m == "STEP" and blank_step) else v, d)) for (m, u, v, d) in s.well]
+        s.curves[0] = (s.curves[0][0], rng.choice(["M", "FT"]), "", s.curves[0][3])
+        if rng.random() < 0.4:
+            s.rows = s.rows[:1]
+            s.well = [(m, u, "999" if m == "STOP" else v, d) for (m, u, v, d) in s.well]
     s.wrap = "NO"
     return lasgen.render(s)[0]
